@@ -8,6 +8,23 @@ COMMON_ASSUME = [
 ]
 
 PROPS = {
+    "C11": {
+        "units": [
+            {"pkg": "./c11", "run": "TestC11Selection|TestC11Handshakes|TestC11SourceHistories", "shards": 4, "shards_thorough": 8, "timeout": 900},
+            {"pkg": "./c11", "run": "TestC11ConcurrentReplacement", "race": True, "shards": 2, "shards_thorough": 4, "timeout": 900},
+        ],
+        "rule": ("rapid-generated certificate sets of 1-6 self-signed ECDSA certificates with common names and SAN lists drawn from a small universe with *.x wildcards at two depths and overlapping names, published "
+                 "through cert.TLSConfig by a harness Source; requested names exact / wildcard instance / deeper than the wildcard / unrelated / upper and mixed case / one or two trailing dots / empty; strict and "
+                 "non-strict listeners; observed through tls.Config.GetCertificate and through real handshakes (tls.Dial against a listener using the config). Oracle: reference selection exact name -> single-label "
+                 "wildcard -> first certificate of the set -> none when strict; the presented certificate must be one of the reference's candidates at the best level and belong to the most recently published set. "
+                 "Concurrent (-race): 2-16 goroutines resolve names while two sets alternate: every answer is right for set A or for set B. Histories through the real PathSource (temp directory) and HTTPSource (file "
+                 "server): good set, then unusable material (broken PEM, truncated certificate, key mismatch, missing key, garbage) for 2.5 s during which the served certificates must not change and the source is "
+                 "polled at most elapsed/1s + 2 times, then a new good set which must take effect. Non-trivial = set with >=2 certificates and a name matched at the exact or wildcard level; every history."),
+        "technique": "rapid property tests against a reference selection model via GetCertificate and real TLS handshakes; concurrent replacement under the race detector; fault-injection histories through the real sources",
+        "level_text": "Generated certificate sets and names are resolved by fabio's store (directly and in real handshakes) and by a reference model; replacement is exercised concurrently under the race detector; histories of good and unusable loads run through the production path and http sources with a poll-rate bound. Exploration only.",
+        "level_note": "An emptied certificate directory is treated as a legitimate (empty) set and is not part of the 'unusable material' domain; visibility of a newly published set is waited for (up to 10-15 s) before selection is judged.",
+        "assumptions": COMMON_ASSUME,
+    },
     "C06": {
         "units": [{"pkg": "./c06", "race": True, "shards": 4, "shards_thorough": 8, "timeout": 900}],
         "parallel": 4,
